@@ -563,6 +563,46 @@ def seq_alphabet():
     return A
 
 
+def seq_core_alphabet():
+    """State-changing calls only, one representative per behaviour class (used for deeper exhaustive sequences)."""
+    A = []
+    for o in ("send", "try_send"):
+        A.append([{"op": o, "h": 0, "m": 0}])
+    A.append([{"op": "send_timeout", "h": 0, "m": 0, "d": 0}])
+    A.append([{"op": "asend_new", "h": 0, "f": 0, "m": 0}, {"op": "poll", "f": 0, "w": 1}])
+    for o in ("recv", "try_recv", "try_recv_realtime"):
+        A.append([{"op": o, "h": 1}])
+    A.append([{"op": "recv_timeout", "h": 1, "d": 0}])
+    A.append([{"op": "drain_into", "h": 1, "pre": 0, "spare": 0}])
+    A.append([{"op": "arecv_new", "h": 1, "f": 1}, {"op": "poll", "f": 1, "w": 1}])
+    A.append([{"op": "stream_new", "h": 1, "f": 2}, {"op": "poll", "f": 2, "w": 1}])
+    for f in (0, 1, 2):
+        A.append([{"op": "poll", "f": f, "w": 2}])
+    A.append([{"op": "drop_fut", "f": 0}])
+    A.append([{"op": "drop_fut", "f": 1}])
+    A.append([{"op": "clone", "h": 0}])
+    A.append([{"op": "drop", "h": 0}])
+    A.append([{"op": "drop", "h": 1}])
+    A.append([{"op": "close", "h": 1}])
+    return A
+
+
+OBS_SUFFIX = ([{"op": o, "hs": sd} for sd in "sr" for o in ("len", "is_full", "is_empty", "sender_count", "receiver_count",
+                                                              "is_closed", "is_disconnected")]
+              + [{"op": "is_terminated", "hs": "r"}, {"op": "poll", "f": 0, "w": 2}, {"op": "poll", "f": 1, "w": 2},
+                 {"op": "try_send", "hs": "s", "m": 0}, {"op": "try_recv", "hs": "r"}, {"op": "try_recv", "hs": "r"},
+                 {"op": "len", "hs": "r"}])
+
+
+def gen_seq_core(length, caps, flav="ss", payload="w1"):
+    """All sequences of `length` state-changing calls, each followed by an observing suffix."""
+    import itertools
+    A = seq_core_alphabet()
+    for cap in caps:
+        for combo in itertools.product(range(len(A)), repeat=length):
+            yield seq_program([A[i] for i in combo] + [[o] for o in OBS_SUFFIX], cap, flav, payload)
+
+
 def seq_program(items, cap, flav, payload="w1"):
     ops = []
     m = 0
